@@ -208,6 +208,7 @@ func (c *client) Execute(
 ) ExecutionResult {
 	c.logger.Debugf("Executing plugin step %s/%s...", stepData.RunID, stepData.ID)
 	if len(stepData.RunID) == 0 {
+		closeUnregistered(signalsFromStep)
 		return NewErrorExecutionResult(fmt.Errorf("run ID is blank for step %s", stepData.ID))
 	}
 	var workStartMsg any
@@ -219,6 +220,9 @@ func (c *client) Execute(
 	// would start in the middle of whatever the first one had already buffered.
 	cborReader := c.decoder
 	if c.atpVersion <= 1 {
+		// A legacy peer emits no signals, and nothing of the run is registered: whether the run is refused, fails or
+		// succeeds, it is over for whoever reads the channel when this call returns.
+		defer closeUnregistered(signalsFromStep)
 		return c.executeLegacy(stepData, workStartMsg, cborReader)
 	}
 	// Wrap it in a runtime message, and encode it before anything is registered for the run: input that cannot be
@@ -226,6 +230,7 @@ func (c *client) Execute(
 	encodedWorkStart, err := encMode().Marshal(
 		RuntimeMessage{RunID: stepData.RunID, MessageID: MessageTypeWorkStart, MessageData: workStartMsg})
 	if err != nil {
+		closeUnregistered(signalsFromStep)
 		return NewErrorExecutionResult(fmt.Errorf("failed to encode work start message (%w)", err))
 	}
 	workStartMsg = cbor.RawMessage(encodedWorkStart)
